@@ -1151,6 +1151,107 @@ def constrained_best(chk: core.Check, cfgs: list[str]) -> None:
             h.close()
 
 
+def template_alias(chk: core.Check, cfgs: list[str]) -> None:
+    """A deep-copied result handed back to the study: `t = study.trials[k]` (a deep copy), `study.add_trial(t)` /
+    `storage.create_new_trial(study_id, template_trial=t)`, then the caller goes on editing ITS object `t`.  What the study and
+    the storage return afterwards must not change (the storage must not keep the caller's object or its dictionaries): the new
+    trial is read by id first - before any full sync replaces a cached entry - then through every other getter."""
+    for cfg in cfgs:
+        for via in ("add_trial", "create_new_trial"):
+            h = fleet.make(cfg, chk.tmp)
+            try:
+                name = "ta%d_%d" % (os.getpid(), next(_SCEN))
+                study = optuna.create_study(storage=h.storage, study_name=name)
+                for i in range(2):
+                    t0 = study.ask()
+                    t0.suggest_float("x", 0, 1)
+                    t0.suggest_categorical("c", ["a", "b"])
+                    t0.set_user_attr("u", [i])
+                    t0.report(0.5, 0)
+                    study.tell(t0, float(i))
+                t = study.trials[1]           # a deep-copied result
+                if via == "add_trial":
+                    study.add_trial(t)
+                    tid = h.storage.get_trial_id_from_study_id_trial_number(study._study_id, 2)
+                else:
+                    tid = h.storage.create_new_trial(study._study_id, template_trial=t)
+                first = canon(h.storage.get_trial(tid))
+                held = h.storage.get_trial(tid)
+                held_before = canon(held)
+                scribble(t)
+                second = canon(h.storage.get_trial(tid))
+                rest = {"trials": [canon(x) for x in study.get_trials(deepcopy=False)], "storage": [canon(x) for x in h.storage.get_all_trials(study._study_id, deepcopy=False)]}
+                chk.case({"part": "template-alias", "cfg": cfg, "via": via}, nontrivial=True)
+                chk.count("template-alias:" + cfg)
+                if first != second or canon(held) != held_before or rest["trials"][2] != first or rest["storage"][2] != first:
+                    chk.violation({"kind": "template-aliased", "via": via},
+                                  {"part": "template-alias", "cfg": cfg, "via": via},
+                                  "[%s] %s(t) with t = study.trials[1] (a deep copy): editing t afterwards changed what the storage returns for the new trial: %s" % (
+                                      cfg, via, (first_diff(first, second) or first_diff(held_before, canon(held)) or first_diff(first, rest["trials"][2]) or first_diff(first, rest["storage"][2]))[:300]))
+                    return
+            finally:
+                h.close()
+
+
+def publish_then_mutate_probe(chk: core.Check) -> None:
+    """InMemoryStorage: while a writer is inside `set_trial_state_values` at the moment it takes the timestamp, ANOTHER
+    thread reads that trial by id (and lists the study).  On a storage whose readers take the lock the reader simply
+    waits (nothing is observed); if a reader gets an object at that moment, that object must never change afterwards
+    and must be a state the trial was in (a finished trial has its completion time)."""
+    import threading
+
+    from optuna.storages import InMemoryStorage
+    from optuna.storages import _in_memory as im
+    from optuna.study import StudyDirection
+    from optuna.trial import TrialState
+
+    real_dt = im.datetime
+    for target in (TrialState.COMPLETE, TrialState.FAIL, TrialState.PRUNED, TrialState.RUNNING):
+        st = InMemoryStorage()
+        sid = st.create_new_study([StudyDirection.MINIMIZE], "p")
+        if target == TrialState.RUNNING:
+            tid = st.create_new_trial(sid, template_trial=optuna.trial.create_trial(state=TrialState.WAITING))
+        else:
+            tid = st.create_new_trial(sid)
+        got: dict[str, Any] = {}
+
+        def reader() -> None:
+            got["trial"] = st.get_trial(tid)
+            got["first"] = canon(got["trial"])
+            got["all"] = st.get_all_trials(sid, deepcopy=False)
+            got["all_first"] = [canon(x) for x in got["all"]]
+
+        class _DT:
+            @staticmethod
+            def now(*a: Any, **k: Any) -> Any:
+                th = threading.Thread(target=reader, daemon=True)
+                th.start()
+                th.join(0.15)
+                got["thread"] = th
+                return real_dt.now(*a, **k)
+
+        im.datetime = _DT  # type: ignore[assignment]
+        try:
+            st.set_trial_state_values(tid, target, [1.0] if target == TrialState.COMPLETE else None)
+        finally:
+            im.datetime = real_dt  # type: ignore[assignment]
+        if "thread" in got:
+            got["thread"].join(2.0)
+        chk.case({"part": "publish-then-mutate", "state": target.name}, nontrivial=True)
+        chk.count("publish-then-mutate:" + ("observed" if "first" in got and not got["thread"].is_alive() else "reader-waited"))
+        if "first" not in got:
+            continue
+        t = got["trial"]
+        now = canon(t)
+        torn = t.state.is_finished() and t.datetime_complete is None
+        if now != got["first"] or [canon(x) for x in got.get("all", [])] != got.get("all_first", []) or (torn and got["first"] == now):
+            chk.violation({"kind": "held-object-changed", "getter": "storage.get_trial", "path": "publish-then-mutate"},
+                          {"part": "publish-then-mutate", "state": target.name},
+                          "[mem] a thread that read trial %d while another thread was inside set_trial_state_values(%s) holds an object that %s" % (
+                              tid, target.name, ("changed afterwards: " + first_diff(got["first"], now)[:200]) if now != got["first"] else "is finished without a completion time"))
+            return
+
+
 def journal_rejected_batch(chk: core.Check, n: int) -> None:
     """Two JournalStorage workers on one log.  Worker A issues writes that replay REJECTS (finished trial, duplicate
     study name) while records of worker B about the same trials sit earlier in the same batch; objects A has read are
@@ -1234,6 +1335,8 @@ def main(chk: core.Check) -> int:
     cfgs = fleet.QUICK if quick else fleet.THOROUGH
     explore(chk, cfgs, 14 if quick else 150, 45 if quick else 110, 3 if quick else 30)
     constrained_best(chk, ["mem", "journal-symlink", "cached", "rdb"])
+    template_alias(chk, ["mem", "journal-symlink", "cached", "rdb"] + ([] if quick else ["grpc(rdb)", "grpc(mem)"]))
+    publish_then_mutate_probe(chk)
     journal_rejected_batch(chk, 25 if quick else 400)
     try:
         alias_explore(chk, 60 if quick else 1000, 40 if quick else 120)
